@@ -105,7 +105,8 @@ class VStoich(Value):
 
 
 def _is_rm(eng):
-    return getattr(eng.cur_contract, "key", None) == "Model.remove_metabolites"
+    # also the in-context contract of the same function (contracts/c02_remove_metabolites_ctx.py)
+    return getattr(eng.cur_contract, "key", None) in ("Model.remove_metabolites", "Model.remove_metabolites[context]")
 
 
 def hasattr_hook(eng, st, v, name):
